@@ -44,6 +44,21 @@ var sigRe = regexp.MustCompile(`^[0-9a-f]{1,9}I[0-9a-f]{6}F[0-9a-f]{4}V[0-9a-f]{
 // documented fingerprinted headers, in the documented id order
 var sigKinds = []string{"call-id", "contact", "cseq", "from", "max-forwards", "to", "via", "user-agent"}
 
+// the library's header types for the documented fingerprinted kinds (exported constants)
+var sigTypes = []sipsp.HdrT{sipsp.HdrCallID, sipsp.HdrContact, sipsp.HdrCSeq, sipsp.HdrFrom, sipsp.HdrMaxFwd, sipsp.HdrTo, sipsp.HdrVia, sipsp.HdrUA}
+
+// sigID: the numeric id the library's exported GetHdrSigId() gives the LONG form of kind k (asked
+// with a 5-byte name, so no notion of "compact" can interfere). The numbering itself is the
+// library's business; which header gets an entry, in which order, and when the compact bit is set
+// is the model's.
+func sigID(k int) int {
+	id, err := sipsp.GetHdrSigId(sipsp.Hdr{Type: sigTypes[k], Name: sipsp.PField{Offs: 0, Len: 5}})
+	if err != sipsp.ErrHdrOk {
+		return 0xff
+	}
+	return int(id)
+}
+
 func sigKindIdx(k string) int {
 	for i, s := range sigKinds {
 		if s == k {
@@ -83,9 +98,9 @@ func modelHdrSig(spec *gen.MsgSpec, cap int) ([]int, bool) {
 		if h.Kind == "contact" && !invite {
 			continue
 		}
-		id := k
+		id := sigID(k)
 		if len(h.Name) == 1 {
-			id |= 8
+			id |= int(sipsp.HdrSigIdCMask)
 		}
 		ids = append(ids, id)
 		if len(ids) >= 8 {
